@@ -34,7 +34,7 @@ type docGen struct {
 
 var latinStems = []string{"alpha", "bravo", "candle", "delta", "ember", "fjord", "garnet", "harbor", "island", "jungle",
 	"kernel", "lantern", "meadow", "nectar", "orbit", "pebble", "quartz", "river", "summit", "timber", "umber", "valley", "willow", "xenon", "yonder", "zephyr"}
-var accentedWords = []string{"página", "próxima", "año", "niño", "café", "été", "précédent", "suivant", "français", "naïve", "Zürich", "nächste", "zurück", "straße", "Größe", "ação", "coração", "São", "señor", "smörgåsbord", "Łódź", "čeština", "žlutý", "İstanbul", "Ελληνικά", "русский", "следующая", "назад", "עברית", "العربية", "ไทย", "हिन्दी", "😀", "ﬁnal", "e\u0301cole", "soft\u00adhyphen", "zero\u200bwidth"}
+var accentedWords = []string{"página", "próxima", "año", "niño", "café", "été", "précédent", "suivant", "français", "naïve", "Zürich", "nächste", "zurück", "straße", "Größe", "ação", "coração", "São", "señor", "smörgåsbord", "Łódź", "čeština", "žlutý", "İstanbul", "Ελληνικά", "русский", "следующая", "назад", "עברית", "العربية", "ไทย", "हिन्दी", "😀", "ﬁnal", "e\u0301cole", "soft\u00adhyphen", "zero\u200bwidth", "\u212aelvin", "\u212bngstr\u00f6m", "\u2126hm", "\u0130zmir", "gro\u1e9ee", "\u023a\u023e", "\u017ftra\u017fse"}
 
 var cjkWords = []string{"文章", "新闻", "内容", "页面", "阅读", "模式", "技術", "情報", "東京", "記事", "下一页", "上一页"}
 var hangulWords = []string{"기사", "내용", "뉴스", "페이지", "다음", "이전", "한국어", "읽기"}
